@@ -1,7 +1,7 @@
 """C01 agreement."""
-from props import simcommon
+from props import simcommon, winforkcommon
 
-HARNESS = ["sim"]
+HARNESS = ["sim", "winfork"]
 ASSUMPTIONS = ["no equivocation (fork-free DAG); honest nodes only; signature R components pairwise distinct",
                "ECDSA signing is randomised: a seed fixes the schedule, not the signature bytes",
                "theorems: full block agreement / prefix consistency (C01_agreement, C01_agreement_prefix) for every two reachable states of the per-event pipeline under static membership over a fork-free universe with pairwise distinct signature tie-break values; no consensus pass ever fails there; dynamic membership and cross-node forks are covered by the oracle and the correspondence only"]
@@ -24,4 +24,6 @@ def run(ctx):
         for fl in ("split", "static", "dagrun"):
             findings += simcommon.escalate(ctx, fl, "C01")
             if findings: break
+    # the recorded fork under a late validator-set change (known finding C01-window-fork): real cores + model, every run
+    winforkcommon.apply("C01", ctx, findings, diffs, cov)
     return dict(findings=findings, coverage=cov, corr_diffs=diffs)
